@@ -47,20 +47,42 @@ class P(C12):
             for r in range(rounds):
                 for proto in ("ipfix", "nf9"):
                     g = Gen(proto, model, rng)
-                    t, o = g.rand_tpl(tid=256 + r, allow_var=False, opts=False, nfields=3)
+                    while True:
+                        t, o = g.rand_tpl(tid=256 + r, allow_var=False, opts=False, nfields=3)
+                        if g.min_rec_len(t) > 4:      # (keeps clear of the recorded finding: a final record of <= 4 octets is taken for padding)
+                            break
                     tmsg = g.enc_msg([g.enc_set(g.tpl_set_id(False), g.enc_tpl(t, False))])
                     dmsg = g.enc_msg([g.enc_set(t.tid, g.rand_record(t)[0])], seq=r + 1)
                     sent[proto] += [(tmsg, True, False), (dmsg, True, True), (b"", False, False), (bytes(3), False, False),
                                     (g.enc_msg([g.enc_set(9000 + r, bytes(8))]), True, False), (b"", False, False)]
                 v5 = c08.PROP.packet(rng, 2)
                 sent["nf5"] += [(v5, True, True), (b"", False, False), (bytes(3), False, False), (v5[:17], False, False), (c08.PROP.packet(rng, 1), True, True)]
-                sf = sfgen.gen_datagram(rng, kinds=["flow", "counter"])[0]
+                while True:
+                    sf = sfgen.gen_datagram(rng, kinds=["flow", "counter"])[0]
+                    if len(sf) <= 1400:        # (the collector reads into buffers of max-udp-size = 1500 octets: a longer datagram is cut on receipt)
+                        break
                 sent["sflow"] += [(sf, True, True), (b"", False, False), (bytes(5), False, False), (sfgen.gen_datagram(rng, kinds=["unknown"])[0], True, False)]
-            for proto, lst in sent.items():
-                for (pl, _, _) in lst:
+            keys = {"ipfix": "IPFIX", "nf9": "NetflowV9", "nf5": "NetflowV5", "sflow": "SFlow"}
+            # the template announcements first, and not before the collector has counted them as decoded does anything follow (with
+            # several workers a data message could otherwise overtake its template: a matter of the exporter's pacing, not of accounting)
+            for proto in ("ipfix", "nf9"):
+                tm = [x for i, x in enumerate(sent[proto]) if i % 6 == 0]
+                rest = [x for i, x in enumerate(sent[proto]) if i % 6 != 0]
+                for (pl, _, _) in tm:
+                    sock.sendto(pl, ("127.0.0.1", col.ports[proto])); time.sleep(0.004)
+                t1 = time.time()
+                while time.time() - t1 < 5:
+                    st = col.stats() or {}
+                    if (st.get(keys[proto]) or {}).get("DecodedCount") == len(tm):
+                        break
+                    time.sleep(0.05)
+                sent[proto] = tm + rest
+                for (pl, _, _) in rest:
+                    sock.sendto(pl, ("127.0.0.1", col.ports[proto])); time.sleep(0.004)
+            for proto in ("nf5", "sflow"):
+                for (pl, _, _) in sent[proto]:
                     sock.sendto(pl, ("127.0.0.1", col.ports[proto])); time.sleep(0.004)
             want = {p: (len(l), sum(1 for x in l if x[1]), sum(1 for x in l if x[2])) for p, l in sent.items()}
-            keys = {"ipfix": "IPFIX", "nf9": "NetflowV9", "nf5": "NetflowV5", "sflow": "SFlow"}
             got = {}
             t0 = time.time()
             while time.time() - t0 < 6:
@@ -81,7 +103,13 @@ class P(C12):
                     viol.append({"cases": ["%d %s datagrams sent to the real socket, of lengths %s (zero-length ones included)" % (want[p][0], p, lens)],
                                  "verdict": "%s: %d datagrams were sent to the collector's UDP port (paced, loopback) and UDPCount is %s: received datagrams are not accounted for" % (p, want[p][0], got[p][0])}); break
                 if got[p][1] != want[p][1]:
-                    viol.append({"cases": [], "verdict": "%s: DecodedCount is %s, but %d of the %d datagrams sent decode successfully" % (p, got[p][1], want[p][1], want[p][0])}); break
+                    detail = []
+                    if p in ("sflow", "nf5"):
+                        # which of them: each datagram on its own through the decoder (harness) and through the model
+                        ls = ["%s %s%s" % (p, "" if p == "sflow" else "x0a000001 ", "x" + x[0].hex()) for x in sent[p]]
+                        im, mo = vf.run_impl(ls, shards=1), vf.run_model(ls)
+                        detail = [(l[:200], i[:80], m[:80]) for l, i, m, x in zip(ls, im, mo, sent[p]) if x[1] != (i not in ("NONE",) and not i.startswith(("ERR", "FAIL"))) ][:3]
+                    viol.append({"cases": [d[0] for d in detail], "verdict": "%s: DecodedCount is %s, but %d of the %d datagrams sent decode successfully %s" % (p, got[p][1], want[p][1], want[p][0], detail)}); break
             tot_pub = sum(want[p][2] for p in want)
             if not viol and published != tot_pub:
                 viol.append({"cases": [], "verdict": "%d messages reached the sink for %d datagrams that yield a record or sample" % (published, tot_pub)})
